@@ -10,7 +10,7 @@ import (
 func init() { register("C01", "other", runC01) }
 
 var abVAS = [][2]string{
-	{"I", "phi((@ + 1)|0)"},
+	{"I", "#i0"},
 	{"SIG", "p1[(I * 65):((I * 65) + 65)]"},
 	{"DIGEST", "ethcrypto.Keccak256(p0)"},
 	{"ECR", "ethcrypto.Ecrecover(DIGEST,SIG)"},
@@ -85,7 +85,7 @@ func runC01(p *Prog, r *Report, tier string) {
 	iter := []guardRow{
 		{"iteration/recovery-ok", []Atom{A("(ECR#1 == nil)")}, backJumps},
 		{"iteration/strictly-increasing-signer-address", []Atom{A("(nil == LASTX)"), A("(nil == LASTY)"), A("(bytes.Compare(ADDRLAST,ADDRREC) < 0)")}, backJumps},
-		{"iteration/signer-is-enabled-attester", []Atom{A("bytes.Equal(ethcommon.FromHex(p2[*].Attester),ECR#0)")}, backJumps},
+		{"iteration/signer-is-enabled-attester", []Atom{A("bytes.Equal(ethcommon.FromHex(p2[#j0].Attester),ECR#0)")}, backJumps},
 	}
 	for _, g := range iter {
 		c.requireCutFrom("G-cut", g.name, body, g.guard, g.scope)
@@ -96,7 +96,7 @@ func runC01(p *Prog, r *Report, tier string) {
 	// membership ranges over the whole attester slice
 	whole := false
 	for _, ii := range c.ifs {
-		if ii.atom.Key == "((phi(-1|@) + 1) < len(p2))" {
+		if ii.atom.Key == "(#j0 < len(p2))" {
 			whole = true
 		}
 	}
